@@ -264,8 +264,7 @@ func (r *Reconciler) reconcileValidate(ctx context.Context, proposal *configapi.
 			rollbackIndex = config.Index
 			rollbackValues = make(map[string]*configapi.PathValue)
 			applyChange := func(path string, changeValue *configapi.PathValue) {
-				deletedParentPath, deletedParentValue := applyChangeToConfig(changeValues, path, changeValue)
-				if deletedParentValue != nil {
+				for deletedParentPath, deletedParentValue := range applyChangeToConfig(changeValues, path, changeValue) {
 					rollbackValues[deletedParentPath] = deletedParentValue
 				}
 				if configValue, ok := config.Values[path]; ok {
@@ -485,12 +484,12 @@ func (r *Reconciler) reconcileCommit(ctx context.Context, proposal *configapi.Pr
 			// deletes are applied before updates, so that an update beneath a node deleted by the same change survives
 			for path, updatedChangeValue := range updatedChangeValues {
 				if updatedChangeValue.Deleted {
-					_, _ = applyChangeToConfig(config.Values, path, updatedChangeValue)
+					_ = applyChangeToConfig(config.Values, path, updatedChangeValue)
 				}
 			}
 			for path, updatedChangeValue := range updatedChangeValues {
 				if !updatedChangeValue.Deleted {
-					_, _ = applyChangeToConfig(config.Values, path, updatedChangeValue)
+					_ = applyChangeToConfig(config.Values, path, updatedChangeValue)
 				}
 			}
 			config.Status.Committed.Index = proposal.TransactionIndex
@@ -520,20 +519,24 @@ func (r *Reconciler) reconcileCommit(ctx context.Context, proposal *configapi.Pr
 	}
 }
 
-func applyChangeToConfig(values map[string]*configapi.PathValue, path string, value *configapi.PathValue) (string, *configapi.PathValue) {
+func applyChangeToConfig(values map[string]*configapi.PathValue, path string, value *configapi.PathValue) map[string]*configapi.PathValue {
 	values[path] = value
 
 	// Walk up the path and make sure that there are no parents marked as deleted in the given map, if so, remove them
+	var deletedParents map[string]*configapi.PathValue
 	parent := pathutils.GetParentPath(path)
 	for parent != "" {
 		if v := values[parent]; v != nil && v.Deleted {
-			// Delete the parent marked as deleted and return its path and value
+			// Delete the parent marked as deleted and remember its path and value
 			delete(values, parent)
-			return parent, v
+			if deletedParents == nil {
+				deletedParents = make(map[string]*configapi.PathValue)
+			}
+			deletedParents[parent] = v
 		}
 		parent = pathutils.GetParentPath(parent)
 	}
-	return "", nil
+	return deletedParents
 }
 
 func (r *Reconciler) reconcileApply(ctx context.Context, proposal *configapi.Proposal) (controller.Result, error) {
